@@ -1,2 +1,288 @@
-/- placeholder: the C12 driver is not built yet -/
-def main : IO Unit := IO.println "C12: driver not built yet"
+/- C12 line-protocol driver: prints `model <TAB> spec` for each case line.
+
+   `<op> r1=<i32|i64|f64> p1=<k> [r2=<..> p2=<k>] a=<int>|as=[..] [b=<int>]`
+   p1/p2 index the period table `periods` (same table as harness/c12.cpp and checks/props/c12.py).
+   For an f64 representation the count is `a / 8`.  With a list argument the op is evaluated for every element
+   and the results are printed as `[r1,r2,...]`; several values of one evaluation are joined with `;`.
+   For a floating-point representation both columns are produced by `FModel` (no independent spec). -/
+import Tetl.Proto
+import Tetl.C12.Model
+import Tetl.C12.Spec
+import Tetl.C12.FModel
+namespace Tetl.C12.Driver
+open Tetl Tetl.Proto Tetl.C12
+open Tetl.C14 (ITy)
+
+/-- the template arguments `ratio<N, D>` of the period table -/
+def periods : List (Int × Int) :=
+  [(1, 1000000000), (1, 1000000), (1, 1000), (1, 1), (60, 1), (3600, 1), (86400, 1), (1, 3), (5, 7), (1001, 30000),
+   (10, 14), (-1001, -30000)]
+
+def repOf : String → Option F.RK
+  | "i32" => some (.i ⟨32, true⟩)
+  | "i64" => some (.i ⟨64, true⟩)
+  | "f64" => some .f
+  | _ => none
+
+def ratOf (nd : Int × Int) : Rat := (nd.1 : Rat) / (nd.2 : Rat)
+
+def fmtE {α : Type} (f : α → String) : Except Err α → String
+  | .ok a => f a
+  | .error e => e.fmt
+
+def sI (i : Int) : String := toString i
+def join (xs : List String) : String := ";".intercalate xs
+
+def sixFlags (eq lt gt : Bool) : String :=
+  String.join [fmtBool eq, fmtBool (!eq), fmtBool lt, fmtBool (!gt), fmtBool gt, fmtBool (!lt)]
+
+/-- the six comparison operators of the model, in the order `== != < <= > >=` -/
+def sixModel (a b : DurTy) (x y : Int) : Except Err String := do
+  let e ← C12.eq a b x y
+  let n ← C12.ne a b x y
+  let l ← C12.lt a b x y
+  let le ← C12.le a b x y
+  let g ← C12.gt a b x y
+  let ge ← C12.ge a b x y
+  .ok (String.join [fmtBool e, fmtBool n, fmtBool l, fmtBool le, fmtBool g, fmtBool ge])
+
+def notConvertible (e : Err) : Bool :=
+  match e with
+  | .pre s => s.startsWith "duration(duration const&)"
+  | _ => false
+
+/-- run-time stage of an operation whose static context `k` was computed once for the line -/
+def withCtx {κ : Type} (k : Except Err κ) (core : κ → Int → Except Err Int) (a : Int) : Except Err Int :=
+  match k with
+  | .ok k => core k a
+  | .error e => .error e
+
+def convStr (k : Except Err CastCtx) (a : Int) : String :=
+  match withCtx k convertCore a with
+  | .ok r => sI r
+  | .error e => if notConvertible e then "n/a" else e.fmt
+
+/-- integer representations: the evaluation of one count `a`, `(model, spec)`; everything that depends only on the line
+    (types, contexts) is computed before the closure is returned -/
+def evalInt (op : String) (t1 t2 : ITy) (nd1 nd2 : Int × Int) (b : Int) : Option (Int → String × String) :=
+  let p := ratOf nd1
+  let q := ratOf nd2
+  let tys : Except Err (DurTy × DurTy) := do
+    let r1 ← mkRatio nd1.1 nd1.2
+    let r2 ← mkRatio nd2.1 nd2.2
+    .ok (⟨t1, r1⟩, ⟨t2, r2⟩)
+  match tys with
+  | .error e => some fun _ => (e.fmt, "?")
+  | .ok (d1, d2) =>
+  let one (m : Int → Except Err Int) (s : Int → Int) : Option (Int → String × String) :=
+    some fun a => (fmtE sI (m a), sI (s a))
+  match op with
+  | "conv" | "tp_conv" =>      -- (time_point's converting constructor: the duration one on time_since_epoch())
+    let k := castCtx d2 d1
+    let conv := (p / q).den == 1
+    some fun a => (convStr k a, if conv then sI (Spec.floor p q a) else "n/a")
+  | "cast" | "tp_cast" => let k := castCtx d2 d1; one (withCtx k castCore) (Spec.cast p q)
+  | "floor" | "tp_floor" => let k := floorCtx d2 d1; one (withCtx k floorCore) (Spec.floor p q)
+  | "ceil" | "tp_ceil" => let k := ceilCtx d2 d1; one (withCtx k ceilCore) (Spec.ceil p q)
+  | "round" | "tp_round" => let k := roundCtx d2 d1; one (withCtx k roundCore) (Spec.round p q)
+  | "add" => let k := pairCtx d1 d2; one (withCtx k (addCore · · b)) (Spec.add p q · b)
+  | "sub" => let k := pairCtx d1 d2; one (withCtx k (subCore · · b)) (Spec.sub p q · b)
+  | "div" => let k := pairCtx d1 d2; one (withCtx k (divCore · · b)) (Spec.div p q · b)
+  | "mod" => let k := pairCtx d1 d2; one (withCtx k (modCore · · b)) (Spec.mod p q · b)
+  | "cmp" | "tp_cmp" =>
+    let k12 := pairCtx d1 d2
+    let k21 := pairCtx d2 d1
+    some fun a =>
+      -- == != < <= > >=   with  != : !(==),  <= : !(rhs < lhs),  > : rhs < lhs,  >= : !(lhs < rhs)
+      let m : Except Err String := do
+        let k12 ← k12
+        let k21 ← k21
+        let e ← eqCore k12 a b
+        let l ← ltCore k12 a b
+        let g ← ltCore k21 b a
+        .ok (String.join [fmtBool e, fmtBool (!e), fmtBool l, fmtBool (!g), fmtBool g, fmtBool (!l)])
+      (fmtE id m, sixFlags (Spec.eq p q a b) (Spec.lt p q a b) (Spec.lt q p b a))
+  | "common" =>
+    let k := pairCtx d1 d2
+    some fun a =>
+      let m : Except Err String := do
+        let k ← k
+        let l ← convertCore k.ka a
+        let r ← convertCore k.kb b
+        .ok (join [sI l, sI r])
+      (fmtE id m, join [sI (Spec.toCommon p q a), sI (Spec.toCommon q p b)])
+  | "ctype" =>
+    let m : Except Err String := do
+      let cd ← commonTy d1 d2
+      .ok (join [sI cd.per.num, sI cd.per.den, toString cd.rep.w])
+    let cp := Spec.commonPeriod p q
+    some fun _ => (fmtE id m, join [sI cp.num, toString cp.den, toString (max t1.w t2.w)])
+  -- free functions that tetl does not declare: the model says so, the spec says what the standard prescribes
+  | "tp_plus" => some fun a => ("missing", join [sI (Spec.add p q a b), sI (Spec.add p q a b)])
+  | "tp_minus" | "tp_diff" => some fun a => ("missing", sI (Spec.sub p q a b))
+  | _ => none
+
+/-- one-type operations, integer representation -/
+def evalInt1 (op : String) (t : ITy) (nd : Int × Int) (b : Int) : Option (Int → String × String) :=
+  match mkRatio nd.1 nd.2 with
+  | .error e => some fun _ => (e.fmt, "?")
+  | .ok r =>
+  let d : DurTy := ⟨t, r⟩
+  let one (m : Int → Except Err Int) (s : Int → Int) : Option (Int → String × String) :=
+    some fun a => (fmtE sI (m a), sI (s a))
+  match op with
+  | "abs" => let k := absCtx d; one (withCtx k absCore) Spec.abs
+  | "neg" => one (neg d) (fun a => -a)
+  | "pos" => let k := posCtx d; one (withCtx k convertCore) id
+  | "inc" => some fun a =>
+    let m : Except Err String := do
+      let x ← addAssign d a 1
+      let y ← addAssign d x 1
+      .ok (join [sI a, sI y, sI y])
+    (fmtE id m, join [sI a, sI (a + 2), sI (a + 2)])
+  | "dec" => some fun a =>
+    let m : Except Err String := do
+      let x ← subAssign d a 1
+      let y ← subAssign d x 1
+      .ok (join [sI a, sI y, sI y])
+    (fmtE id m, join [sI a, sI (a - 2), sI (a - 2)])
+  | "tp_inc" => some fun a =>
+    let m : Except Err String := do
+      let x ← addAssign d a 1
+      let y ← addAssign d x 1
+      let z ← subAssign d y 1
+      let w ← subAssign d z 1
+      .ok (join [sI a, sI y, sI w])
+    (fmtE id m, join [sI a, sI (a + 2), sI a])
+  | "adda" | "tp_adda" => one (addAssign d · b) (· + b)
+  | "suba" | "tp_suba" => one (subAssign d · b) (· - b)
+  | "mula" => one (mulAssign d · b) (· * b)
+  | "diva" => one (divAssign d · b) (Int.tdiv · b)
+  | "moda" | "modad" => one (modAssign d · b) (Int.tmod · b)
+  | "mul" => some fun a => ("missing", join [sI (a * b), sI (a * b)])
+  | "divr" => some fun a => ("missing", sI (Int.tdiv a b))
+  | "modr" => some fun a => ("missing", sI (Int.tmod a b))
+  | "limits" =>
+    let s := join [sI 0, sI t.min, sI t.max, sI t.min, sI t.max]
+    some fun _ => (s, s)
+  | _ => none
+
+def mkV (r : F.RK) (a : Int) : F.V :=
+  match r with
+  | .f => .f (Float.ofInt a / 8.0)
+  | .i _ => .i a
+
+/-- at least one `double` representation: both columns from `FModel` -/
+def evalF (op : String) (r1 r2 : F.RK) (nd1 nd2 : Int × Int) (b : Int) : Option (Int → String) :=
+  let y := mkV r2 b
+  let ctx : Except Err (Ratio × (Ratio × Ratio) × (Ratio × Ratio) × DurTy) := do
+    let p1 ← mkRatio nd1.1 nd1.2
+    let p2 ← mkRatio nd2.1 nd2.2
+    let cf ← ratioDivide p1 p2
+    let k12 ← F.pairCf p1 p2
+    let k21 ← F.pairCf p2 p1
+    let cd ← commonTy ⟨imax, p1⟩ ⟨imax, p2⟩
+    .ok (cf, k12, k21, cd)
+  match ctx with
+  | .error e => some fun _ => e.fmt
+  | .ok (cf, k12, k21, cd) =>
+  match op with
+  | "cast" | "tp_cast" => some fun a => (F.durationCast r2 cf (mkV r1 a)).fmt
+  | "floor" | "tp_floor" => some fun a => (F.floorTo r2 cf k12 (mkV r1 a)).fmt
+  | "ceil" | "tp_ceil" => some fun a => (F.ceilTo r2 cf k21 (mkV r1 a)).fmt
+  | "round" | "tp_round" =>
+    match r2 with
+    | .f => some fun _ => "n/a"
+    | .i ty => some fun a => fmtE F.V.fmt (F.roundTo ty cf k12 k21 (mkV r1 a))
+  | "add" => some fun a => let (l, r) := F.toCommon k12 (mkV r1 a) y; F.fmtF (l + r)
+  | "sub" => some fun a => let (l, r) := F.toCommon k12 (mkV r1 a) y; F.fmtF (l - r)
+  | "div" => some fun a => let (l, r) := F.toCommon k12 (mkV r1 a) y; F.fmtF (l / r)
+  | "mod" => some fun _ => "n/a"
+  | "cmp" | "tp_cmp" => some fun a =>
+    let (l, r) := F.toCommon k12 (mkV r1 a) y
+    let (r', l') := F.toCommon k21 y (mkV r1 a)
+    String.join [fmtBool (l == r), fmtBool (!(l == r)), fmtBool (l < r), fmtBool (!(r' < l')), fmtBool (r' < l'),
+                 fmtBool (!(l < r))]
+  | "common" => some fun a => let (l, r) := F.toCommon k12 (mkV r1 a) y; join [F.fmtF l, F.fmtF r]
+  | "ctype" => some fun _ => join [sI cd.per.num, sI cd.per.den, "0"]
+  | "conv" | "tp_conv" =>
+    match r2 with
+    | .i _ => some fun _ => "n/a"          -- an integer duration is not constructible from a floating-point one
+    | .f => some fun a => F.fmtF (F.convertF cf (mkV r1 a))
+  | _ => none
+
+def evalF1 (op : String) (b : Int) : Option (Int → String) :=
+  let e := Float.ofInt b / 8.0
+  let rb := Float.ofInt b
+  let f := F.fmtF
+  let c (a : Int) : Float := Float.ofInt a / 8.0
+  match op with
+  | "abs" => some fun a => f (if c a < 0.0 then 0.0 - c a else c a)
+  | "neg" => some fun a => f (-(c a))
+  | "pos" => some fun a => f (c a * 1.0 / 1.0)
+  | "inc" => some fun a => join [f (c a), f (c a + 1.0 + 1.0), f (c a + 1.0 + 1.0)]
+  | "dec" => some fun a => join [f (c a), f (c a - 1.0 - 1.0), f (c a - 1.0 - 1.0)]
+  | "tp_inc" => some fun a => join [f (c a), f (c a + 1.0 + 1.0), f (c a + 1.0 + 1.0 - 1.0 - 1.0)]
+  | "adda" | "tp_adda" => some fun a => f (c a + e)
+  | "suba" | "tp_suba" => some fun a => f (c a - e)
+  | "mula" => some fun a => f (c a * rb)
+  | "diva" => some fun a => f (c a / rb)
+  | "moda" | "modad" | "modr" => some fun _ => "n/a"
+  | "limits" => some fun _ => "x0000000000000000;xffefffffffffffff;x7fefffffffffffff;xffefffffffffffff;x7fefffffffffffff"
+  | _ => none
+
+/-- the named duration types of duration.hpp (`ratio` template arguments as written there) and of [time.syn] -/
+def namedModel : List (Int × Int) :=
+  [(1, 1000000000), (1, 1000000), (1, 1000), (1, 1), (60, 1), (3600, 1), (86400, 1), (604800, 1), (2629746, 1), (31556952, 1)]
+/-- [time.syn]: months = years / 12, years = 146097 days / 400, weeks = 7 days -/
+def namedSpec : List Rat :=
+  [1 / 1000000000, 1 / 1000000, 1 / 1000, 1, 60, 3600, 86400, 7 * 86400, (146097 * 86400 : Rat) / 400 / 12, (146097 * 86400 : Rat) / 400]
+
+def evalNamed (k : Nat) : Option (String × String) := do
+  let nd ← namedModel[k]?
+  let sp ← namedSpec[k]?
+  let m := match mkRatio nd.1 nd.2 with
+    | .ok r => join [sI r.num, sI r.den]
+    | .error e => e.fmt
+  some (m, join [sI sp.num, toString sp.den])
+
+/-- the evaluator of a line: a function of the count -/
+def evalLine (l : Line) : Option (Int → String × String) := do
+  let r1 ← (l.str? "r1").bind repOf
+  let k1 ← l.nat? "p1"
+  let nd1 ← periods[k1]?
+  let b := (l.int? "b").getD 0
+  match l.get? "r2" with
+  | none =>
+    match r1 with
+    | .i t => evalInt1 l.op t nd1 b
+    | .f => (evalF1 l.op b).map fun f a => (f a, f a)
+  | some _ =>
+    let r2 ← (l.str? "r2").bind repOf
+    let k2 ← l.nat? "p2"
+    let nd2 ← periods[k2]?
+    match r1, r2 with
+    | .i t1, .i t2 => evalInt l.op t1 t2 nd1 nd2 b
+    | _, _ => (evalF l.op r1 r2 nd1 nd2 b).map fun f a => let s := f a; (s, s)
+
+def joinRes (rs : List (String × String)) : String × String :=
+  ("[" ++ ",".intercalate (rs.map (·.1)) ++ "]", "[" ++ ",".intercalate (rs.map (·.2)) ++ "]")
+
+def step (_ : Unit) (l : Line) : Unit × String :=
+  let bad := ((), "bad-op\tbad-op")
+  let out (r : String × String) := ((), r.1 ++ "\t" ++ r.2)
+  if l.op == "named" then
+    match (l.nat? "k").bind evalNamed with | some r => out r | none => bad
+  else
+  match evalLine l with
+  | none => bad
+  | some f =>
+    match l.int? "a", l.list? "as" with
+    | some a, none => out (f a)
+    | none, some as => out (joinRes (as.map f))
+    | none, none => out (f 0)
+    | _, _ => bad
+
+end Tetl.C12.Driver
+
+def main : IO Unit := Tetl.Proto.runDriver () Tetl.C12.Driver.step
